@@ -14,7 +14,8 @@ EXPLANATION = ("Flush hand-shake. R1: every log_statement call carrying a contro
                "every registered logger — also one that was removed and not yet erased (R4c; collector never ends early, loop has no early exit), "
                "and _cleanup_invalidated_loggers flushes before it erases (R4h). R5: FileSink::flush_sink -> "
                "StreamSink::flush_sink -> flush -> fflush(_file); every successful write path marks the stream dirty."
-               " R2e/R3c: the load that ends the caller's wait is an acquire load and the backend's store a release store.")
+               " R2e/R3c: the load that ends the caller's wait is an acquire load and the backend's store a release store."
+               " R6 (= C05.R9): the per-queue read loop has no other exit than 'empty', 'held back' and the per-pass limits (the cross-thread clause rests on every thread with an eligible statement having one buffered after a pass).")
 NOT_DECIDED = ("The cross-thread clause (needs the C05 ordering theorem as behaviour), success of fflush itself (its result is "
                "ignored by design — noted, not a violation), that the backend keeps running.")
 ASSUMPTIONS = ["per-thread FIFO and timestamp order (C01-C05)"]
